@@ -46,6 +46,7 @@ struct RefSol
   bool ok = false;
   double kappa = INFINITY;
   std::vector<double> est, var, varz; // per rhs column
+  std::vector<double> beta, Sc;       // Bayesian form: posterior mean (p) and covariance (p*p, row-major)
 };
 // (R): long double reference on the library's matrices. Z already centred for SK; 'addMean' per rhs column.
 static RefSol refSolve(const MatrixSquareSymmetric& S, const MatrixRectangular* X, const MatrixRectangular& S0,
@@ -115,6 +116,9 @@ static RefSol refBayes(const MatrixSquareSymmetric& S, const MatrixRectangular& 
   auto t2 = ref::mulv(iP, mm);
   for (int i = 0; i < p; i++) t1[i] += t2[i];
   auto beta = ref::mulv(Sc, t1);
+  for (int i = 0; i < p; i++) r.beta.push_back((double)beta[i]);
+  for (int i = 0; i < p; i++)
+    for (int j = 0; j < p; j++) r.Sc.push_back((double)Sc(i, j));
   for (int c = 0; c < q; c++)
   {
     std::vector<LD> s0(n);
@@ -203,6 +207,58 @@ static void cmp3(Ctx& c, const std::string& pfx, const std::string& key, const V
       closeRel(c, pfx + "-varz-" + against, varKey.empty() ? key + ":varz" : varKey, vz[j], wVz[j], tolV, vscale, w);
     else if (!wVz.empty())
       c.check(pfx + "-varz-" + against, key + ":varz:size", false, 1, 0, w + fmt(" getVarianceZstar size %zu", vz.size()));
+  }
+}
+
+// Re-feed sequence on a LIVE calculator that has already been queried: setData(Z2) with the matrices unchanged, query
+// everything again against the reference for the NEW data (estimate, and in the Bayesian form the posterior mean;
+// standard deviations, var(Z*) and the posterior covariance do not depend on the data and must not move), then
+// setData(Z) back and query once more against the ORIGINAL reference. Catches any memo that setData fails to drop
+// (resetLinkedToZ -> _deleteZ -> _deleteZstar / _deleteBeta / _deleteDual).
+static void refeedCheck(Ctx& c, KrigingCalcul& K, const std::string& form, const std::string& pfx, const VectorDouble& Z,
+                        const VectorDouble* means, const VectorDouble& Z2, const RefSol& Rold, const RefSol& Rnew, bool withVar,
+                        bool withVz, bool bayes, double kappa, const std::string& what)
+{
+  std::string key = "C04:calcul:" + form + ":after-setData";
+  std::string o   = pfx + "-refeed";
+  double tolE = 1e3 * EPS * kappa * std::max(G_ZS, 3.0), tolV = 1e3 * EPS * kappa * G_SILL;
+  auto cmpVec = [&](const std::string& on, const VectorDouble& got, const std::vector<double>& want, double tol, double scale,
+                    const std::string& w, bool clamp0 = false, bool square = false) {
+    if (got.size() != want.size())
+    {
+      c.check(on, key, false, 1, 0, what + " " + w + fmt(" size %zu want %zu", got.size(), want.size()));
+      return;
+    }
+    for (size_t j = 0; j < want.size(); j++)
+    {
+      double g = square ? got[j] * got[j] : got[j], x = clamp0 ? std::max(want[j], 0.0) : want[j];
+      closeRel(c, on, key, g, x, tol, scale, what + " " + w + fmt(" [%zu]", j));
+    }
+  };
+  for (int step = 0; step < 2; step++)
+  {
+    const VectorDouble& zz = step == 0 ? Z2 : Z;
+    const RefSol& R        = step == 0 ? Rnew : Rold;
+    const char* sn         = step == 0 ? "new-data" : "data-restored";
+    K.setData(&zz, means);
+    cmpVec(o + "-estim", K.getEstimation(), R.est, tolE, std::max(G_ZS, 3.0), std::string(sn) + " estimation");
+    if (withVar) cmpVec(o + "-var", K.getStdv(), R.var, bayes ? 10 * tolV : tolV, G_SILL, std::string(sn) + " stdev^2", true, true);
+    if (withVz) cmpVec(o + "-varz", K.getVarianceZstar(), R.varz, tolV, G_SILL, std::string(sn) + " varZ*");
+    if (bayes)
+    {
+      double bs = 1.0, cs = 0.0;
+      for (double v : R.beta) bs = std::max(bs, std::fabs(v));
+      for (double v : R.Sc) cs = std::max(cs, std::fabs(v));
+      cmpVec(o + "-postmean", K.getPostMean(), R.beta, 1e3 * EPS * kappa * std::max(bs, G_ZS), bs, std::string(sn) + " posterior mean");
+      const MatrixSquareSymmetric* pc = K.getPostCov();
+      int p = (int)R.beta.size();
+      if (pc == nullptr || pc->getNRows() != p)
+        c.check(o + "-postcov", key, false, 1, 0, what + " " + sn + " posterior covariance missing / wrong size");
+      else
+        for (int i = 0; i < p; i++)
+          for (int j = 0; j <= i; j++)
+            closeRel(c, o + "-postcov", key, pc->getValue(i, j), R.Sc[i * p + j], 1e3 * EPS * kappa * cs, cs, what + " " + sn + fmt(" posterior covariance (%d,%d)", i, j));
+    }
   }
 }
 
@@ -354,6 +410,17 @@ static void run_case(Rng& r, Ctx& c)
         tolE = 1e3 * EPS * std::max(R.kappa, RB.kappa) * zs;
         tolV = 1e3 * EPS * std::max(R.kappa, RB.kappa) * sill;
         cmp3(c, pfx, key, est, sd, VectorDouble(), RB.est, RB.var, {}, tolE, tolV * 10, what, "ref");
+        {
+          // posterior moments of the first query, then the re-feed sequence (every target: the object is live either way)
+          VectorDouble Z2(Z.size());
+          for (auto& v : Z2) v = r.uni(-3, 3);
+          RefSol RB2 = refBayes(Sigma, X, Sigma0, X0, Sigma00, Z2, pm, pc);
+          if (RB2.ok)
+          {
+            (void)K.getPostMean();
+            refeedCheck(c, K, FORM[form], pfx, Z, &means, Z2, RB, RB2, true, false, true, std::max(R.kappa, RB.kappa), what);
+          }
+        }
         // standard path: kribayes(). Its own agreement with (R) is reported under a separate key so that the two
         // sides of the differential can be told apart
         StdOut S = stdKriging(data, tg, ms, true, pm, pc);
@@ -375,17 +442,13 @@ static void run_case(Rng& r, Ctx& c)
         cmp3(c, pfx, key, est, sd, vz, R.est, R.var, R.varz, tolE, tolV, what, "ref", estKey);
       else
         cmp3(c, pfx, key, est, VectorDouble(), VectorDouble(), R.est, {}, {}, tolE, tolV, what, "ref", estKey);
-      // lazy cache: the data vector is replaced on the live object (setData -> resetLinkedToZ); the estimate must follow
-      if (reuse && t == m - 1)
+      // lazy cache: the data vector is replaced on the live object (setData -> resetLinkedToZ); everything must follow
+      if (!nullMeans)
       {
         VectorDouble Z2(Z.size());
         for (auto& v : Z2) v = r.uni(-3, 3);
         RefSol R2 = refSolve(Sigma, order >= 0 ? &X : nullptr, Sigma0, order >= 0 ? &X0 : nullptr, Sigma00, Z2, addMean);
-        K.setData(&Z2, &means);
-        VectorDouble est2 = K.getEstimation();
-        cmp3(c, pfx + "-newdata", key + ":after-setData", est2, VectorDouble(), VectorDouble(), R2.est, {}, {}, 1e3 * EPS * R.kappa * 3.0, tolV,
-             what, "ref", estKey);
-        K.setData(&Z, &means);
+        if (R2.ok) refeedCheck(c, K, FORM[form], pfx, Z, &means, Z2, R, R2, form == 0, form == 0, false, R.kappa, what);
       }
       // (S) standard kriging
       StdOut S = stdKriging(data, tg, ms);
@@ -454,6 +517,28 @@ static void run_case(Rng& r, Ctx& c)
     // too many (KrigingCalcul::_needVarZSK) -> one root-cause key for both outputs
     std::string varKey = order < 0 ? "C04:calcul:colcok:sk-variance" : "";
     cmp3(c, pfx, key, est, sd, vz, R.est, R.var, R.varz, tolE, tolV, what, "ref", estKey, varKey);
+    {
+      // re-feed sequence: new data on the live calculator, collocated values unchanged. The complemented data vector is
+      // variable-major: for each variable its data equations, then the collocated value when there is one.
+      VectorDouble Z2(Z.size());
+      for (auto& v : Z2) v = r.uni(-3, 3);
+      VectorDouble ZP2;
+      int e0 = 0;
+      for (int v = 0; v < nvar; v++)
+      {
+        for (int i = 0; i < n; i++)
+          if (data.active(i) && data.defined(i, v)) ZP2.push_back(Z2[e0++]);
+        if (!undef(colval[v])) ZP2.push_back(colval[v] - means[v]);
+      }
+      if ((int)ZP2.size() == SigmaP.getNRows() && e0 == neq)
+      {
+        RefSol R2 = refSolve(SigmaP, order >= 0 ? &XP : nullptr, Sigma0P, order >= 0 ? &X0 : nullptr, Sigma00, ZP2, addMean);
+        // (variances only in the UK case: the SK collocated variances are the open finding C04:calcul:colcok:sk-variance)
+        if (R2.ok) refeedCheck(c, K, "colcok", pfx, Z, &means, Z2, R, R2, order >= 0, order >= 0, false, R.kappa, what);
+      }
+      else
+        c.truth("kc-setup", "C04:calcul:setup", false, what + " complemented data vector size");
+    }
     StdOut S = stdKriging(comp, tg, ms);
     if (S.rc != 0 || S.est.size() != (size_t)nvar || undef(S.est[0])) { c.skip("std-kriging-refused"); return; }
     std::vector<double> wv;
@@ -538,6 +623,31 @@ static void run_case(Rng& r, Ctx& c)
     std::string estKey = (order < 0 && nonzeroMeans) ? "C04:calcul:sk-nonzero-mean:estim" : "";
     std::string pfx    = std::string("kc-xvalid") + ((order < 0 && nonzeroMeans) ? "-skmean" : "");
     cmp3(c, pfx, key, est, sd, vz, wE, wV, wZ, tolE, tolV, what, "ref", estKey);
+    {
+      // re-feed sequence: new data on the live calculator; the depleted data vector is the new one without the
+      // cross-validated equations
+      VectorDouble Z2(Z.size());
+      for (auto& v : Z2) v = r.uni(-3, 3);
+      VectorDouble ZP2;
+      for (int q = 0; q < (int)Z2.size(); q++)
+        if (std::find(eqs.begin(), eqs.end(), q) == eqs.end()) ZP2.push_back(Z2[q]);
+      if ((int)ZP2.size() == SigmaP.getNRows())
+      {
+        RefSol R2all = refSolve(SigmaP, order >= 0 ? &XP : nullptr, Sigma0P, order >= 0 ? &X0P : nullptr, Sigma00, ZP2, addMean);
+        if (R2all.ok)
+        {
+          RefSol Ro, Rn;
+          for (int v : vx)
+          {
+            Ro.est.push_back(Rall.est[v]); Ro.var.push_back(Rall.var[v]); Ro.varz.push_back(Rall.varz[v]);
+            Rn.est.push_back(R2all.est[v]); Rn.var.push_back(R2all.var[v]); Rn.varz.push_back(R2all.varz[v]);
+          }
+          refeedCheck(c, K, "xvalid", pfx, Z, &means, Z2, Ro, Rn, true, true, false, kap, what);
+        }
+      }
+      else
+        c.truth("kc-setup", "C04:calcul:setup", false, what + " depleted data vector size");
+    }
     StdOut S = stdKriging(dep, tg, ms);
     if (S.rc != 0 || S.est.size() != (size_t)nvar || undef(S.est[0])) { c.skip("std-kriging-refused"); return; }
     std::vector<double> sE, sV, sZ;
